@@ -97,4 +97,34 @@ Section Schnorr.
   (* ---- Mina ------------------------------------------------------------------------- *)
   Definition mina_verify := gen_verify false xo full.
   Definition mina_sign := gen_sign false xo full yodd.
+
+  (* ---- wire forms ----------------------------------------------------------------------
+     The 64-byte forms carry integers: an x-coordinate below the base-field prime p and a
+     scalar below n.  The decoders (bip340.NewSignatureFromBytes / NewPublicKeyFromBytes,
+     mina.DeserializeSignature) refuse every other representative and rebuild the point
+     with that x-coordinate and even y ([lift_even x] is its discrete log, None when x is
+     not the x-coordinate of a curve point). *)
+  Section Wire.
+    Variable p : Z.
+    Variable lift_even : Z -> option Z.
+
+    Definition canonical (modulus c : Z) : bool := (0 <=? c) && (c <? modulus).
+
+    Definition bip_verify_wire (px rx s : Z) (m : M) : bool :=
+      if negb (canonical p px) then false            (* NewPublicKeyFromBytes: x >= p *)
+      else if negb (canonical p rx) then false       (* NewSignatureFromBytes: r >= p *)
+      else if negb (canonical n s) then false        (* s >= n *)
+      else match lift_even px, lift_even rx with
+           | Some P, Some R => bip_verify (mk_ssig (mk_gelt true R) s) (mk_gelt true P) m
+           | _, _ => false
+           end.
+
+    Definition mina_verify_wire (rx s : Z) (pk : gelt) (m : M) : bool :=
+      if negb (canonical p rx) then false            (* DeserializeSignature: R.x >= p *)
+      else if negb (canonical n s) then false        (* s >= q *)
+      else match lift_even rx with
+           | Some R => mina_verify (mk_ssig (mk_gelt true R) s) pk m
+           | None => false
+           end.
+  End Wire.
 End Schnorr.
